@@ -6,5 +6,10 @@ T == INSTANCE Trackers WITH FAdd <- QAdd, FSub <- QSub, FMul <- QMul, FDiv <- QD
 Conv(b, p) == [buf |-> [i \in 1..K |-> IF b[i] = 0 THEN <<>> ELSE <<b[i]>>], pos |-> p, k |-> K]
 StepIsTrackers == Conv(BufNext, PosNext) = (IF WrapBug THEN T!SWUpdWrapBug(Conv(buf, pos), n + 1) ELSE T!SWUpd(Conv(buf, pos), n + 1))
 Bound == n <= 3 * K + 2
+\* the step the TLAPS proof (SWIndProof.tla: any window length, any number of updates) is about is this module's step;
+\* its history variable base (values fed before the current lap) is n - pos
+P == INSTANCE SWIndProof WITH base <- n - pos
+ProofIsAboutThisStep == [][P!Update <=> Update]_<<n, buf, pos>>
+ProofInvariant == P!Inv /\ P!WindowIsLastK
 Spec == Init /\ [][Next]_<<n, buf, pos>>
 =============================================================================
